@@ -83,6 +83,10 @@ class C06RunState(Oracle):
         if st == "Stopped":
             if r and not in_restart:
                 self.v("C06", "C06.state_flag_mismatch", "Stopped", f"System State Stopped but is_running={r}")
+            elif (h or p) and not in_restart and not w.engine.has_error_state():
+                # a stopped run is neither paused nor on hold: the control state message must not say so
+                self.v("C06", "C06.state_flag_mismatch", "Stopped:flags",
+                       f"System State Stopped but the control state reports holding={h} paused={p}")
         elif st == "Paused":
             if not (r and p):
                 self.v("C06", "C06.state_flag_mismatch", "Paused", f"Paused but running={r} paused={p}")
